@@ -432,3 +432,20 @@ package swap
 //@   requires held(s.muPairs)
 //@ func (*Swap).addPair #lockpre
 //@   requires wheld(s.muPairs)
+
+//@ # ---------------------------------------------------------------- C14: price priority among the orders placed or re-priced in one block
+//@ # The comparator handed to sort.Slice in updateDirtyOrders, verified as a unit of its own (dirties and cmp are its
+//@ # captured variables: pointers to cells of the enclosing function). addToList keeps the loaded list in the order
+//@ # "x comes after y when x.sortPrice().Cmp(y.sortPrice()) == cmp"; the pending orders must be handed to it in the same
+//@ # order, because the merge loop carries the insertion position forward. ASSUMED: sortPrice() is a function of the order
+//@ # (its float value is the ghost sortPriceR). Only the price part is stated; the tie-break on ids is left open here.
+//@ ghost sortPriceR(l *Limit) real
+//@ func (*Limit).sortPrice
+//@   trusted
+//@   ensures result != nil && result.real == sortPriceR(l)
+//@   modifies ordersCache
+//@ func (*PairV2).updateDirtyOrders$1
+//@   serves C14
+//@   let d = deref(dirties)
+//@   requires dirties != nil && cmp != nil && 0 <= i && i < len(d) && 0 <= j && j < len(d) && d[i] != nil && d[j] != nil
+//@   ensures pricefirst: sortPriceR(d[i]) != sortPriceR(d[j]) ==> result == ((sortPriceR(d[j]) > sortPriceR(d[i]) && deref(cmp) == 1) || (sortPriceR(d[j]) < sortPriceR(d[i]) && deref(cmp) == -1))
